@@ -1426,7 +1426,12 @@ def _c18_context(m: str, name: str, wv: dict, wx: dict, path: Any, env: list, ba
     out: List[str] = []
     if name in ("set", "map key") and "valid" in base and not is_hashable_desc(base["valid"]):
         return out
-    r = run_alone(wv, env, wx, m)["out"]
+    try:
+        r = run_alone(wv, env, wx, m)["out"]
+    except (AttributeError, TypeError):
+        # the context cannot even be *built* around this value: hashing it (set member, dict key) raises - the value's
+        # own doing (an instance with an unset field), before the library is called
+        return out
     if "raised" in r:
         return [f"{m}: in a one-element {name} context the call raised {r['raised']}"]
     if ("valid" in base) != ("valid" in r):
